@@ -8,6 +8,7 @@ import (
 	"fmt"
 	"math/big"
 	"sort"
+	"strconv"
 	"strings"
 )
 
@@ -77,6 +78,10 @@ func jsonTerm(v interface{}) string {
 	case float64:
 		return numTerm(fmt.Sprintf("%v", x))
 	case string:
+		// any string that strconv can parse as a float may reach a decimal64 decoder
+		if _, err := strconv.ParseFloat(x, 64); err == nil {
+			floatTextsSeen[x] = true
+		}
 		return "(JStr " + coqStr(x) + ")"
 	case []interface{}:
 		items := make([]string, len(x))
